@@ -17,11 +17,13 @@ pub struct Sess<K: El, V: El> {
     pub mon: Mon<K, V>,
     pub ops: Vec<Op>,
     pub viol: Option<(Viol, usize)>,
+    /// a key singled out by a scenario builder (state 7)
+    pub special: Option<u64>,
 }
 
 impl<K: El, V: El> Sess<K, V> {
     pub fn new(cfg: &Cfg) -> Self {
-        Sess { mon: new_mon(cfg), ops: Vec::new(), viol: None }
+        Sess { mon: new_mon(cfg), ops: Vec::new(), viol: None, special: None }
     }
     /// Apply one op; false once a violation has been recorded.
     pub fn go(&mut self, op: Op) -> bool {
@@ -493,6 +495,53 @@ fn chain_state<K: El, V: El>(s: &mut Sess<K, V>, state: u64, size: usize, next: 
             }
             true
         }
+        // "probe gap": an exactly full single table (identity hasher) in which the special key
+        // sits three slots past its home behind a collision chain, with an EMPTY slot inside
+        // that chain and a dense run after it, so that removing the key leaves a tombstone while
+        // an EMPTY slot comes earlier in its probe sequence
+        7 => {
+            let bh = s.mon.bh;
+            let st = s.mon.state();
+            if bh.mode != HMode::Identity || bh.seed & 0xff != 0 || st.main.buckets < 32 || st.main.len != 0 || st.old.is_some() {
+                return false;
+            }
+            let b = st.main.buckets as u64;
+            let h = (size as u64) % (b - 8);
+            for i in 0..4 {
+                if !s.go(Op::kv(Code::Insert, h + i * b, 100 + i)) {
+                    return false;
+                }
+            }
+            if !s.go(Op::k(Code::Remove, h + 2 * b)) {
+                return false;
+            }
+            let mut j = h + 4;
+            let mut guard = 0;
+            loop {
+                let st = s.mon.state();
+                if st.old.is_some() || st.main.buckets as u64 != b {
+                    return false;
+                }
+                if st.main.capacity == st.main.len {
+                    break;
+                }
+                guard += 1;
+                if guard > 2 * b {
+                    return false;
+                }
+                let home = j % b;
+                if !(h..h + 4).contains(&home) {
+                    // a key whose home is this very slot, larger than anything in the chain
+                    if !s.go(Op::kv(Code::Insert, home + 8 * b, home)) {
+                        return false;
+                    }
+                }
+                j += 1;
+            }
+            s.special = Some(h + 3 * b);
+            *next = (*next).max(20 * b);
+            true
+        }
         // resize started by reserve: every element in the old table, the main table empty
         _ => {
             if s.mon.map.is_empty() {
@@ -546,7 +595,10 @@ fn chain_case<K: El, V: El>(cfg: &Cfg, state: u64, size: usize, class: usize, op
     if !chain_state(&mut s, state, size, &mut next) {
         return if s.ok() { None } else { Some(s.finish()) };
     }
-    let k = key_of_class(&s, class)?;
+    let k = match s.special {
+        Some(k) => k,
+        None => key_of_class(&s, class)?,
+    };
     let mut op = op_template.clone();
     op.k = k;
     s.go(op);
@@ -584,7 +636,7 @@ pub fn chains(a: &Args, rep: &mut Report) {
     let mut classes_seen = [0u64; 4];
     for (ti, t) in templates.iter().enumerate() {
         for &size in &sizes {
-            for state in 0..7u64 {
+            for state in 0..8u64 {
                 for class in 0..4usize {
                     case += 1;
                     if case % sh.count != sh.index {
@@ -598,7 +650,15 @@ pub fn chains(a: &Args, rep: &mut Report) {
                     let mut hr = Rng::new(sh.seed ^ mix(case));
                     let elem = *hr.pick(&[ElemKind::TrInline, ElemKind::TrHeap, ElemKind::U64]);
                     let mode = *hr.pick(&[HMode::Good, HMode::Identity, HMode::SameTag]);
-                    let cfg = cfg_of(elem, Bh::new(mode, hr.below(3)), usize::MAX, 1, 1, focus);
+                    let mut cfg = cfg_of(elem, Bh::new(mode, hr.below(3)), usize::MAX, 1, 1, focus);
+                    if state == 7 {
+                        // the probe-gap state needs the identity hasher and a pre-sized table; the
+                        // key is the special one (class "main")
+                        if class != 1 {
+                            continue;
+                        }
+                        cfg = cfg_of(elem, Bh::new(HMode::Identity, 0), *hr.pick(&[28usize, 56]), 1, 1, focus);
+                    }
                     let out = match elem {
                         ElemKind::U64 => chain_case::<u64, u64>(&cfg, state, size, class, t),
                         ElemKind::TrInline => chain_case::<Tr<false>, Tr<false>>(&cfg, state, size, class, t),
@@ -626,7 +686,7 @@ pub fn chains(a: &Args, rep: &mut Report) {
 // zero-sized elements: exhaustive enumeration of short histories
 // ------------------------------------------------------------------------------------------
 
-const ZOPS: usize = 17;
+const ZOPS: usize = 18;
 
 fn zst_apply(map: &mut griddle::HashMap<(), (), Bh>, set: &mut griddle::HashSet<(), Bh>, present: &mut (bool, bool), op: usize) -> Result<(), String> {
     let chk = |c: bool, what: &str| if c { Ok(()) } else { Err(format!("{what} disagrees with the model")) };
@@ -687,9 +747,13 @@ fn zst_apply(map: &mut griddle::HashMap<(), (), Bh>, set: &mut griddle::HashSet<
             set.retain(|_| false);
             present.1 = false;
         }
-        _ => {
+        16 => {
             let r = map.try_reserve(37);
             chk(r.is_ok(), "map try_reserve")?;
+            let r = set.try_reserve(37);
+            chk(r.is_ok(), "set try_reserve")?;
+        }
+        _ => {
             let r = match map.entry(()) {
                 griddle::hash_map::Entry::Occupied(o) => {
                     o.replace_entry_with(|_, _| None);
@@ -720,7 +784,7 @@ pub fn zst(a: &Args, rep: &mut Report) {
     let total = (ZOPS as u64).pow(depth);
     let names = [
         "map.insert", "map.remove", "map.get", "map.entry.or_insert", "map.reserve(10)", "map.reserve(1000)", "map.shrink_to_fit", "map.clear", "map.retain(false)", "map.drain", "map.clone",
-        "set.insert", "set.remove", "set.reserve(10)", "set.take", "set.retain(false)", "map.try_reserve+replace_entry_with",
+        "set.insert", "set.remove", "set.reserve(10)", "set.take", "set.retain(false)", "map.try_reserve(37)+set.try_reserve(37)", "map.entry.replace_entry_with(None)/insert",
     ];
     for code in 0..total {
         if code % sh.count != sh.index {
